@@ -70,6 +70,56 @@ func c19aCoqListing(l []c19aEntry) string {
 	return "[" + strings.Join(parts, "; ") + "]"
 }
 
+// an agent that refuses chosen calls: the List call, the k-th Remove call, the Add call (counted
+// from the moment arm() is called).  A refused call has no effect on the keyring behind it.
+type c19aFaulty struct {
+	agent.Agent
+	failList   bool
+	failRemove int // index of the Remove call to refuse, -1: none
+	failAdd    bool
+	removes    int
+	fired      string
+	snapshot   []c19aEntry // the listing handed to the client, in the agent's order
+}
+
+var errC19aInjected = fmt.Errorf("verif: injected agent failure")
+
+func (f *c19aFaulty) List() ([]*agent.Key, error) {
+	if f.failList {
+		f.fired = "list"
+		return nil, errC19aInjected
+	}
+	keys, err := f.Agent.List()
+	for _, k := range keys {
+		h := sha256.Sum256(k.Blob)
+		pk, perr := ssh.ParsePublicKey(k.Blob)
+		isCert := false
+		if perr == nil {
+			_, isCert = pk.(*ssh.Certificate)
+		}
+		f.snapshot = append(f.snapshot, c19aEntry{k.Comment, string(h[:8]), isCert})
+	}
+	return keys, err
+}
+
+func (f *c19aFaulty) Remove(key ssh.PublicKey) error {
+	k := f.removes
+	f.removes++
+	if k == f.failRemove {
+		f.fired = "remove"
+		return errC19aInjected
+	}
+	return f.Agent.Remove(key)
+}
+
+func (f *c19aFaulty) Add(key agent.AddedKey) error {
+	if f.failAdd {
+		f.fired = "add"
+		return errC19aInjected
+	}
+	return f.Agent.Add(key)
+}
+
 func TestVerif_C19A(t *testing.T) {
 	res := newVerifResult("agent histories: identities added by somebody else (plain keys and certificates of every key type, under the client's labels and others, re-adding an existing blob under a new label) interleaved with the client's upsert of RSA / P-256 / P-384 / Ed25519 certificates under 3 labels, on a real keyring over a pipe; listing after every operation vs the model; non-trivial = an upsert that found something under its label; distinct by (operation, key type, label, agent size)")
 	rng := verifRand()
@@ -112,6 +162,15 @@ func TestVerif_C19A(t *testing.T) {
 		nHist, nOps = 600, 24
 	}
 	var cases, idx []string
+	// histories 4..7: three certificates of different keys under one label, then the client's
+	// installation against an agent that refuses the List call, the k-th Remove call for every k, the
+	// Add call; after each a fault-free installation
+	type faultPlan struct {
+		list   bool
+		remove int
+		add    bool
+	}
+	systematic := []faultPlan{{false, 0, false}, {false, 1, false}, {false, 2, false}, {true, -1, false}, {false, -1, true}, {false, 3, false}}
 	for hi := 0; hi < nHist; hi++ {
 		kr := agent.NewKeyring()
 		var steps, descs []string
@@ -120,15 +179,102 @@ func TestVerif_C19A(t *testing.T) {
 			label := labels[rng.Intn(len(labels))]
 			before := c19aListing(t, kr)
 			c := rng.Intn(100)
+			fault := faultPlan{remove: -1}
+			faulty := false
 			if hi < 4 {
 				// every key type: install twice under one label, with a plain key of that label around
 				key = pool[[]int{0, 2, 3, 4}[hi]]
 				label = labels[0]
 				c = []int{10, 60, 60, 30, 60}[k%5]
+			} else if hi < 8 {
+				label = labels[(hi-4)%2]
+				key = pool[(2+hi+k)%len(pool)]
+				switch {
+				case k%4 < 3 && k < 3:
+					c = 30
+				case k%2 == 1:
+					c = 90
+					faulty = true
+					fault = systematic[((k-3)/2+(hi-4))%len(systematic)]
+				default:
+					c = []int{30, 60}[(k/2)%2]
+				}
+			} else if c >= 40 && rng.Intn(3) == 0 {
+				faulty = true
+				switch rng.Intn(4) {
+				case 0:
+					fault.list = true
+				case 1:
+					fault.add = true
+				default:
+					fault.remove = rng.Intn(3)
+				}
 			}
 			var opName string
 			var added c19aEntry
 			switch {
+			case c >= 40 && faulty: // the client installs a certificate into an agent that refuses a call
+				cert := mkCert(key)
+				c1, c2 := net.Pipe()
+				fa := &c19aFaulty{Agent: kr, failList: fault.list, failRemove: fault.remove, failAdd: fault.add}
+				go agent.ServeAgent(fa, c2)
+				err := WithAddedKeyUpsertCertIntoAgentConnection(agent.AddedKey{PrivateKey: key.raw, Certificate: cert, Comment: label, LifetimeSecs: 3600}, c1, logger)
+				c1.Close()
+				h := sha256.Sum256(cert.Marshal())
+				added = c19aEntry{label, string(h[:8]), true}
+				after := c19aListing(t, kr)
+				fr := 0
+				if fault.remove >= 0 {
+					fr = fault.remove + 1
+				}
+				steps = append(steps, fmt.Sprintf("(AUpsertF %s %d %s (%s) %s %s, %s)", coqBool(fault.list), fr, coqBool(fault.add), added.coq(), c19aCoqListing(fa.snapshot), coqBool(err == nil), c19aCoqListing(after)))
+				descs = append(descs, fmt.Sprintf("AUpsertF list=%v remove=%d add=%v %s %s fired=%q err=%v -> %d entries", fault.list, fault.remove, fault.add, key.kind, label, fa.fired, err != nil, len(after)))
+				res.bump("AUpsertF:" + map[string]string{"": "none-fired", "list": "list", "remove": "remove", "add": "add"}[fa.fired])
+				n, had, present := 0, 0, false
+				for _, e := range after {
+					if e.cert && e.comment == label {
+						n++
+					}
+					if e == added {
+						present = true
+					}
+				}
+				for _, e := range before {
+					if e.cert && e.comment == label {
+						had++
+					}
+				}
+				cs := map[string]interface{}{"history": hi, "ops": append([]string(nil), descs...)}
+				shape := fa.fired
+				if shape == "" {
+					shape = "none"
+				}
+				if err == nil && n != 1 {
+					res.hit(verifHit{Key: "C19:agent-stale-after-fault:" + shape, Oracle: "an installation that reports success leaves exactly one certificate with the label, also when the agent refused a call", Kind: "history",
+						What: fmt.Sprintf("the agent refused the %s call; the installation reported success and %d certificates carry the label %q (%d before)", shape, n, label, had), Case: cs, Observed: n})
+				}
+				if err != nil && present {
+					res.hit(verifHit{Key: "C19:agent-added-despite-error:" + shape, Oracle: "an installation that reports an error has added nothing", Kind: "history",
+						What: fmt.Sprintf("the agent refused the %s call; the installation reported an error and the new certificate is in the agent", shape), Case: cs})
+				}
+				if err != nil {
+					for _, e := range before {
+						if !e.cert || e.comment != label {
+							found := false
+							for _, a := range after {
+								if a == e {
+									found = true
+								}
+							}
+							if !found {
+								res.hit(verifHit{Key: "C19:agent-collateral", Oracle: "installing a certificate removed an identity that is not a certificate with that label", Kind: "history",
+									What: fmt.Sprintf("entry %q cert=%v disappeared in a failed installation", e.comment, e.cert), Case: cs})
+							}
+						}
+					}
+				}
+				res.eval(fmt.Sprintf("upsert-fault|%s|%s|%d|%s|%v", key.kind, label, had, shape, err == nil), fa.fired != "")
+				continue
 			case c < 20: // foreign plain key
 				if err := kr.Add(agent.AddedKey{PrivateKey: key.raw, Comment: label}); err != nil {
 					t.Fatal(err)
